@@ -8,7 +8,7 @@ VERIF = os.path.dirname(os.path.dirname(os.path.abspath(__file__)))
 COQ = os.path.join(VERIF, "coq")
 BUILD = os.path.join(VERIF, "build")
 CARGO_TARGET = os.path.join(BUILD, "cargo")
-REPO = "/repo"
+REPO = os.environ.get("VERIF_REPO", "/repo")      # default: the repository itself; override only for experiments on a scratch copy
 NCPU = os.cpu_count() or 4
 
 FORBIDDEN = re.compile(r"\b(Admitted|admit|Axiom|Axioms|Parameter|Parameters|Conjecture|Admit Obligations|"
@@ -178,19 +178,39 @@ def build_model_driver():
     return os.path.join(VERIF, "ocaml", "gen", "driver")
 
 
+def harness_dir():
+    """the harness crate path-depends on /repo; for experiments on a scratch copy of the repository (VERIF_REPO) a copy of
+    the crate with the path rewritten is used, with its own target directory"""
+    if REPO == "/repo":
+        return os.path.join(VERIF, "harness"), CARGO_TARGET
+    tag = hashlib.sha256(REPO.encode()).hexdigest()[:10]
+    d = os.path.join(BUILD, "harness-alt-" + tag)
+    os.makedirs(os.path.join(d, "src"), exist_ok=True)
+    src = os.path.join(VERIF, "harness")
+    for f in os.listdir(os.path.join(src, "src")):
+        a, b = os.path.join(src, "src", f), os.path.join(d, "src", f)
+        if not os.path.exists(b) or open(a).read() != open(b).read():
+            open(b, "w").write(open(a).read())
+    toml = open(os.path.join(src, "Cargo.toml")).read().replace('path = "/repo"', 'path = "%s"' % REPO)
+    if not os.path.exists(os.path.join(d, "Cargo.toml")) or open(os.path.join(d, "Cargo.toml")).read() != toml:
+        open(os.path.join(d, "Cargo.toml"), "w").write(toml)
+    return d, os.path.join(BUILD, "cargo-alt-" + tag)
+
+
 def build_harness(profile="release"):
-    lock = os.path.join(VERIF, "harness", "Cargo.lock")
+    hdir, target = harness_dir()
+    lock = os.path.join(hdir, "Cargo.lock")
     with Lock("cargo"):
         if not os.path.exists(lock) or open(lock).read() != open(os.path.join(REPO, "Cargo.lock")).read():
             # the lock file is the repository's own (offline resolution of the same crate versions)
             if not os.path.exists(lock):
                 open(lock, "w").write(open(os.path.join(REPO, "Cargo.lock")).read())
         cmd = ["cargo", "build", "--offline", "--quiet"] + (["--release"] if profile == "release" else [])
-        rc, out = sh(cmd, 3000, cwd=os.path.join(VERIF, "harness"),
-                     env={"CARGO_TARGET_DIR": CARGO_TARGET, "RUSTFLAGS": "--cfg monero_rs_verif -Awarnings"})
+        rc, out = sh(cmd, 3000, cwd=hdir,
+                     env={"CARGO_TARGET_DIR": target, "RUSTFLAGS": "--cfg monero_rs_verif -Awarnings"})
     if rc != 0:
         return None, out
-    return os.path.join(CARGO_TARGET, "release" if profile == "release" else "debug", "mrs-harness"), out
+    return os.path.join(target, "release" if profile == "release" else "debug", "mrs-harness"), out
 
 
 def _run_batch(binary, lines, timeout, extra=(), unlimited_stack=False):
@@ -546,5 +566,7 @@ def write_evidence(chk, tier, seed, pr, cases, impl, model, extra, nviol, wall, 
     ev = {"property_id": chk.pid, "tier": tier, "seed": seed, "level": "proof", "coverage": cov,
           "assumptions": [chk.level_note] if getattr(chk, "level_note", None) else [],
           "wall_s": round(wall, 2), "violations": nviol}
-    os.makedirs(os.path.join(VERIF, "evidence"), exist_ok=True)
-    json.dump(ev, open(os.path.join(VERIF, "evidence", chk.pid + ".json"), "w"), indent=1)
+    # evidence of record comes only from runs against /repo itself; experiments on a scratch copy write elsewhere
+    evdir = os.path.join(VERIF, "evidence") if REPO == "/repo" else os.path.join(BUILD, "evidence-alt")
+    os.makedirs(evdir, exist_ok=True)
+    json.dump(ev, open(os.path.join(evdir, chk.pid + ".json"), "w"), indent=1)
